@@ -89,6 +89,11 @@ CLAIMED = {
             "monomial of admissible degree on a symbolic interval; Kronecker property and mesh connectivity enumerated over the grid.", "4/C13",
             "path-exploring symbolic execution of the real basis/quadrature code + z3 nlsat per obligation with explicit tolerances over exact rational float values; float replay of models",
             "Bounded in degree, element count and number of quadrature points (evidence.coverage.bounds); connectivity and nodal clauses are concrete enumerations."),
+    "C15": ("model_checking", "Bounded exhaustive exploration of write histories through the real CooMatrix code with symbolic block values: after every "
+            "write all conversions equal the dense accumulation; inconsistent block shapes raise on every history; constructor rejects invalid shapes. "
+            "Right level: the property is about the container's control flow over value/key kinds, values only flow through.", "4/C15",
+            "symbolic execution of the real container code on z3-term values over enumerated write histories; equalities decided by the normal form of the symbolic scalars / z3; float cross-check on the unshimmed scipy code",
+            "Histories bounded to length 3 (quick) / 4 (thorough) on a 3x3 container with concrete index sets; array('d') and scipy conversions stubbed by their documented law."),
 }
 
 NOT_APPLICABLE = {
